@@ -24,7 +24,12 @@ fn main() {
             for n in ["k1", "k2", "k3", "e1", "e2"] {
                 let (s, pk) = keys::indep_pub(n).unwrap();
                 let nid = if s == 'k' { indep::secp_nid(&pk).unwrap() } else { indep::ed_nid(&pk).unwrap() };
-                m.insert(n.to_string(), json!({"scheme": if s == 'k' {"secp"} else {"ed"}, "pk": indep::bytes_json(&pk), "nid": indep::bytes_json(&nid)}));
+                let xy = if s == 'k' {
+                    enr::secp256k1::PublicKey::from_slice(&pk).map(|p| p.serialize_uncompressed()[1..].to_vec()).unwrap_or_default()
+                } else {
+                    vec![]
+                };
+                m.insert(n.to_string(), json!({"scheme": if s == 'k' {"secp"} else {"ed"}, "pk": indep::bytes_json(&pk), "nid": indep::bytes_json(&nid), "xy": indep::bytes_json(&xy)}));
             }
             println!("{}", Value::Object(m));
         }
